@@ -228,9 +228,36 @@ fn param_type(s: &Value, mode: &str) -> &'static str {
     }
 }
 
+fn element_type(v: &Value) -> &'static str {
+    match k(v) {
+        "int" => "int",
+        "float" => "float",
+        "string" => "string",
+        "bool" => "bool",
+        "void" => "()",
+        _ => "any",
+    }
+}
+
+/// An array literal whose first element is the parameter `e` (so the literal is not a constant and
+/// only its length is known to the folder); None for strings and empty arrays.
+fn array_literal_with_param(s: &Value) -> Option<(String, String, String)> {
+    let es = items(s, "es");
+    if k(s) != "array" || es.is_empty() {
+        return None;
+    }
+    let mut parts = vec!["e".to_string()];
+    parts.extend(es[1..].iter().map(render_value));
+    Some((format!("[{}]", parts.join(", ")), element_type(&es[0]).to_string(), render_value(&es[0])))
+}
+
 pub fn at_program(s: &Value, i: &Value, mode: &str) -> String {
     let (st, it) = (render_value(s), render_ext(i));
     match mode {
+        "arrlit" => match array_literal_with_param(s) {
+            Some((lit, ty, arg)) => format!("f := (e: {ty}) -> any {{ return {lit}[{it}]; }}; f({arg})"),
+            None => format!("{st}[{it}]"),
+        },
         "lit" => format!("{st}[{it}]"),
         "var" => format!("s := {st}; i := {it}; s[i]"),
         "fn" | "fnu" => format!("f := (s: {}, i: int) -> any {{ return s[i]; }}; f({st}, {it})", param_type(s, mode)),
@@ -241,6 +268,10 @@ pub fn at_program(s: &Value, i: &Value, mode: &str) -> String {
 pub fn len_program(s: &Value, mode: &str) -> String {
     let st = render_value(s);
     match mode {
+        "arrlit" => match array_literal_with_param(s) {
+            Some((lit, ty, arg)) => format!("g := (e: {ty}) -> int {{ return std.len({lit}); }}; g({arg})"),
+            None => format!("std.len({st})"),
+        },
         "lit" => format!("std.len({st})"),
         "var" => format!("s := {st}; std.len(s)"),
         "fn" | "fnu" => format!("g := (s: {}) -> int {{ return std.len(s); }}; g({st})", param_type(s, mode)),
@@ -257,6 +288,13 @@ pub fn slice_program(s: &Value, a: &Value, b: &Value, c: &Value, mode: &str, tra
     let st = render_value(s);
     let (at, bt, ct) = (render_ext(a), render_ext(b), render_ext(c));
     match mode {
+        "arrlit" => match array_literal_with_param(s) {
+            Some((lit, ty, arg)) => format!(
+                "f := (e: {ty}) -> any {{ r := {lit}{}; return (r, std.len(r)); }}; f({arg})",
+                brackets(&at, &bt, &ct, trailing_colon)
+            ),
+            None => slice_program(s, a, b, c, "lit", trailing_colon),
+        },
         "lit" => {
             let e = format!("{st}{}", brackets(&at, &bt, &ct, trailing_colon));
             format!("({e}, std.len({e}))")
@@ -390,7 +428,7 @@ fn replay(dir: &str, tier: &str) -> Value {
     let bounds = items(axes, "bounds").to_vec();
     let steps = items(axes, "steps").to_vec();
     let thorough = tier == "thorough";
-    let at_modes: &[&str] = if thorough { &["lit", "var", "fn", "fnu"] } else { &["lit", "fn", "fnu"] };
+    let at_modes: &[&str] = if thorough { &["lit", "arrlit", "var", "fn", "fnu"] } else { &["lit", "arrlit", "fn", "fnu"] };
     let at_rows = read_ndjson(&format!("{dir}/seqs_at.ndjson"));
     let slice_rows = read_ndjson(&format!("{dir}/seqs_slice.ndjson"));
     let parts = parallel(|w, nw| {
@@ -451,7 +489,7 @@ fn replay(dir: &str, tier: &str) -> Value {
                     cx.distinct.insert(format!("{s}{want_r}"));
                     let parity = (ri + bi + ci) % 2 == 0;
                     let modes: Vec<&str> = if thorough {
-                        vec!["lit", "var", "fn", "fnu"]
+                        vec!["lit", "arrlit", "var", "fn", "fnu"]
                     } else {
                         vec!["lit", if parity { "fn" } else { "fnu" }]
                     };
@@ -561,7 +599,7 @@ fn record(n_cases: usize, path: &str) -> Value {
     for i in 0..n_cases {
         let s = random_seq(&mut rng, 12);
         let n = items(&s, if k(&s) == "string" { "cps" } else { "es" }).len();
-        let mode = *rng.pick(&["lit", "var", "fn", "fnu"]);
+        let mode = *rng.pick(&["lit", "arrlit", "var", "fn", "fnu"]);
         let rec = match rng.below(8) {
             0 => {
                 lens += 1;
